@@ -75,6 +75,9 @@ def first_diff(exp, act, path=()):
         return None if math.isnan(act) else ("value", path)
     if exp != act:
         return ("value", path)
+    if isinstance(exp, float) and exp == 0.0 and \
+            math.copysign(1.0, exp) != math.copysign(1.0, act):
+        return ("value", path)  # 0.0 and -0.0 are different JSON texts
     return None
 
 
